@@ -82,6 +82,13 @@ package auth
 // deliberately success (auth.go:488, 538). Every other storage error surfaces. Same for the Update fall-back, whose
 // callback cancels (ErrUpdateCancel) when there is nothing to do.
 //@ func Authenticator.InvalidateChannels
+// (C03) the invalidation is written to the named principal document, at the path of exactly the named collection, with the given sequence
+//@   also C03: subdoc-doc, subdoc-seq, subdoc-path-default, subdoc-path-named, update-same-doc
+//@   before[subdoc-doc]          call SubdocInsert#1 $2 == docID && $4 == 0
+//@   before[subdoc-seq]          call SubdocInsert#1 dynType($5) == typeTag(uint64) && unbox($5, uint64) == #invalSeq
+//@   before[subdoc-path-default] call SubdocInsert#1 callres(ScopeName, 1, 0) == base.DefaultScope && callres(CollectionName, 1, 0) == base.DefaultCollection ==> $3 == "channel_inval_seq"
+//@   before[subdoc-path-named]   call SubdocInsert#1 !(callres(ScopeName, 1, 0) == base.DefaultScope && callres(CollectionName, 1, 0) == base.DefaultCollection) ==> $3 == "collection_access." + callres(ScopeName, 1, 0) + "." + callres(CollectionName, 1, 0) + "." + "channel_inval_seq" && $3 != "channel_inval_seq"
+//@   before[update-same-doc]     call Update#1 $2 == docID
 //@   modifies *
 //@   only-contracts IsDocNotFoundError
 //@   ensures[subdoc-error] called(SubdocInsert, 1) && !isNilErr(callres(SubdocInsert, 1, 0)) && callres(SubdocInsert, 1, 0) != box(base.ErrAlreadyExists) && callres(SubdocInsert, 1, 0) != box(base.ErrPathExists) && callres(SubdocInsert, 1, 0) != box(base.ErrPathNotFound) && !isDocNotFoundErr(callres(SubdocInsert, 1, 0)) ==> !isNilErr(result)
@@ -89,6 +96,9 @@ package auth
 //@   ensures[attempted]    called(SubdocInsert, 1) || called(Update, 1)
 
 //@ func Authenticator.InvalidateRoles
+//@   also C03: subdoc-seq, update-same-doc
+//@   before[subdoc-seq]      call SubdocInsert#1 $2 == docID && $3 == "role_inval_seq" && $4 == 0 && dynType($5) == typeTag(uint64) && unbox($5, uint64) == invalSeq
+//@   before[update-same-doc] call Update#1 $2 == docID
 //@   modifies *
 //@   only-contracts IsDocNotFoundError
 //@   ensures[subdoc-error] called(SubdocInsert, 1) && !isNilErr(callres(SubdocInsert, 1, 0)) && callres(SubdocInsert, 1, 0) != box(base.ErrAlreadyExists) && callres(SubdocInsert, 1, 0) != box(base.ErrPathExists) && callres(SubdocInsert, 1, 0) != box(base.ErrPathNotFound) && !isDocNotFoundErr(callres(SubdocInsert, 1, 0)) ==> !isNilErr(result)
@@ -104,6 +114,11 @@ package auth
 // The update callbacks: a marshalling failure aborts the update with an error (the storage layer then writes nothing);
 // a document is produced only from a successfully unmarshalled principal.
 //@ func Authenticator.InvalidateChannels$1
+//@   also C03: asks-named, marks-named, given-seq, valid-only
+//@   before[asks-named]  call CollectionChannels#1 $1 == callres(ScopeName, 1, 0) && $2 == callres(CollectionName, 1, 0)
+//@   before[marks-named] call setCollectionChannelInvalSeq#1 $1 == callres(ScopeName, 1, 0) && $2 == callres(CollectionName, 1, 0)
+//@   before[given-seq]   call setCollectionChannelInvalSeq#1 $3 == invalSeq
+//@   before[valid-only]  call setCollectionChannelInvalSeq#1 callres(CollectionChannels, 1, 0) != nil
 //@   modifies *
 //@   only-contracts none
 //@   propagates JSONUnmarshal#1 JSONMarshal#1
@@ -112,11 +127,19 @@ package auth
 // (InvalidateRoles$1 and InvalidateRolesAndChannels$1 turn an unmarshalling failure of the stored user into ErrUpdateCancel, which
 // their callers report as success: a corrupt user document is "nothing to invalidate". Not a storage failure; not claimed either way.)
 //@ func Authenticator.InvalidateRoles$1
+//@   also C03: roles-seq
+//@   before[roles-seq]   call SetRoleInvalSeq#1 $1 == invalSeq && callres(RoleNames, 1, 0) != nil
 //@   modifies *
 //@   only-contracts none
 //@   propagates JSONUnmarshal#1 JSONMarshal#1
 
 //@ func Authenticator.InvalidateRolesAndChannels$1
+//@   also C03: asks-named, marks-named, given-seq, valid-only, roles-seq
+//@   before[asks-named]  call CollectionChannels#1 $1 == callres(ScopeName, 1, 0) && $2 == callres(CollectionName, 1, 0)
+//@   before[marks-named] call setCollectionChannelInvalSeq#1 $1 == callres(ScopeName, 1, 0) && $2 == callres(CollectionName, 1, 0)
+//@   before[given-seq]   call setCollectionChannelInvalSeq#1 $3 == invalSeq
+//@   before[valid-only]  call setCollectionChannelInvalSeq#1 callres(CollectionChannels, 1, 0) != nil
+//@   before[roles-seq]   call SetRoleInvalSeq#1 $1 == invalSeq && callres(RoleNames, 1, 0) != nil
 //@   modifies *
 //@   only-contracts none
 //@   propagates JSONUnmarshal#1 JSONMarshal#1
